@@ -1,7 +1,7 @@
 """C03 - root update accepted iff version+1 and signed per old and new root rules."""
 import random
 
-from ..engines import rootchain
+from ..engines import noise, rootchain
 from ..monitors import boundary
 from ..refs import models
 
@@ -67,6 +67,8 @@ def run_shard(spec, rec, lib):
     for i in range(spec["count"]):
         case = rootchain.gen_pair(rng)
         model, out = judge(case, rec, lib)
+        if i % 25 == 7:
+            noise.tick(lib, rng, spec.get("scratch"))
         if out.accepted and model.v == models.ACCEPT:
             # related neighbours in the same process: the signature entries the library has just
             # verified, re-used verbatim on (a) the same version with edited content and
